@@ -6,10 +6,10 @@ import io
 import json
 
 from .. import mapgen, mapsym
-from ..coqlit import Err
+from ..coqlit import Err, clist, cnat
 
 PROP = "C01"
-RUN = "Run_C01"
+RUN = "Run_C01x"
 THEOREMS = "Props/C01.v"
 ANCHORS = [
     ("pipefunc/map/_run.py", ["run_map", "_func_kwargs", "_select_kwargs", "_run_iteration_and_process", "_update_array",
@@ -34,10 +34,39 @@ TRUSTED = ["Model/MapRun.v mirrors pipefunc/map/_run.py (sequential path) by han
 
 
 def emit_case(c) -> str:
-    return mapgen.request_lit(c)
+    if c.get("kind") == "auto":
+        return "(CAuto %s %s)" % (mapgen.request_lit(c), clist([cnat(i) for i in c["order"]]))
+    return "(CReq %s)" % mapgen.request_lit(c)
+
+
+def _spec_obs(ms):
+    if ms is None:
+        return None
+    return [str(ms), [[a.name, list(a.axes)] for a in ms.inputs], [[a.name, list(a.axes)] for a in ms.outputs]]
+
+
+def _run_auto(c):
+    """User-level list: Pipeline([...]) in the given order generates the missing MapSpecs."""
+    log = mapsym.CallLog()
+    sink = io.StringIO()
+    with contextlib.redirect_stdout(sink):
+        try:
+            p = mapsym.build_pipeline(dict(c, funcs=[c["funcs"][i] for i in c["order"]]), log)
+            specs = [_spec_obs(f.mapspec) for f in p.functions]
+        except Exception as e:  # noqa: BLE001
+            return Err(e)
+        with mapsym.TempRun() as d:
+            try:
+                r = p.map(mapsym.map_inputs(c), run_folder=d, internal_shapes=mapsym.internal_arg(c),
+                          storage=c.get("storage", "dict"), parallel=False)
+                return ["ok", mapsym.results_obs(c, r), len(log.read()), specs]
+            except Exception as e:  # noqa: BLE001
+                return ["maperr", Err(e), specs]
 
 
 def run_impl(c):
+    if c.get("kind") == "auto":
+        return _run_auto(c)
     log = mapsym.CallLog()
     sink = io.StringIO()
     with contextlib.redirect_stdout(sink):
@@ -54,13 +83,53 @@ def run_impl(c):
                 return Err(e)
 
 
+def _conflict(c, rng):
+    """Malformed user-level list: one consumer renames an axis of a spec-less producer's output (conflicting axes for
+    the generated MapSpec: ValueError at construction), or gives it another rank."""
+    import copy
+    c = copy.deepcopy(c)
+    stripped = {o for f in c["funcs"] if f.get("stripped") for o in f["outs"]}
+    uses = [(f, k) for f in c["funcs"] if f.get("spec") for k, (n, ax) in enumerate(f["spec"]["i"]) if n in stripped]
+    if not uses:
+        return None
+    f, k = rng.choice(uses)
+    ax = f["spec"]["i"][k][1]
+    named = [q for q, a in enumerate(ax) if a is not None]
+    if named and rng.random() < 0.6:
+        q = rng.choice(named)
+        old = ax[q]
+        new = "zz"
+        # keep the consumer itself well formed: rename the index everywhere in this MapSpec
+        for _, a2 in f["spec"]["i"] + f["spec"]["o"]:
+            for t, a in enumerate(a2):
+                if a == old:
+                    a2[t] = new
+    else:
+        ax.append(None)
+    c["malformed"] = True
+    return c
+
+
 def generate(rng, tier, mult):
     n = (220 if tier == "quick" else 4000) * mult
+    n_auto = (110 if tier == "quick" else 2000) * mult
     out = []
     while len(out) < n:
-        c = mapgen.gen_request(rng)
+        c = mapgen.gen_request(rng, allow_zero_ext=True)
         if mapgen.request_size(c) <= 40:
             out.append(c)
+    k = 0
+    while k < n_auto:
+        c = mapgen.gen_request(rng, allow_zero_ext=True)
+        if mapgen.request_size(c) > 40:
+            continue
+        u = mapgen.to_user_level(c, rng)
+        if u is None:
+            continue
+        if rng.random() < 0.12:
+            u = _conflict(u, rng) or u
+        out.append(u)
+        k += 1
     return out
 
 
@@ -75,6 +144,9 @@ def _nontrivial(c):
 def nontrivial_key(c):
     if not _nontrivial(c):
         return None
+    if c.get("kind") == "auto":
+        return ("auto", [mapsym.spec_str(f.get("spec")) for f in c["funcs"]], c["order"],
+                [v["sh"] if isinstance(v, dict) else 0 for _, v in c["inputs"]], c.get("storage"))
     return ([mapsym.spec_str(f.get("spec")) for f in c["funcs"]],
             [v["sh"] if isinstance(v, dict) else 0 for _, v in c["inputs"]], c.get("storage"))
 
@@ -82,7 +154,16 @@ def nontrivial_key(c):
 def distribution(c):
     kinds = sorted({"map" if (f.get("spec") and f["spec"]["i"]) else ("gen" if f.get("spec") else "single")
                     for f in c["funcs"]})
+    def zero_ext(f):
+        sp = f.get("spec")
+        return bool(sp and sp["i"] and not any(a is not None for _, ax in sp["i"] for a in ax))
     return {"nfuncs": len(c["funcs"]), "kinds": "+".join(kinds), "storage": c.get("storage"),
+            "case": ("auto-malformed" if c.get("malformed") else "auto") if c.get("kind") == "auto" else "explicit",
+            "auto_tuple": any(f.get("stripped") and len(f["outs"]) > 1 for f in c["funcs"]),
+            "auto_colon": any(f.get("spec") and any(n in {o for g in c["funcs"] if g.get("stripped") for o in g["outs"]}
+                                                    and None in ax for n, ax in f["spec"]["i"]) for f in c["funcs"]),
+            "permuted": c.get("order") is not None and c["order"] != sorted(c["order"]),
+            "zero_ext": any(zero_ext(f) for f in c["funcs"]),
             "internal_first": any(f.get("ret") and f.get("spec") and f["spec"]["i"] and
                                   f["spec"]["o"][0][1][0] not in {a for _, ax in f["spec"]["i"] for a in ax}
                                   for f in c["funcs"])}
@@ -101,6 +182,8 @@ def shrink(c):
             continue
         d = json.loads(json.dumps(c))
         d["funcs"] = fs[:j] + fs[j + 1:]
+        if d.get("order") is not None:
+            d["order"] = [i - (i > j) for i in d["order"] if i != j]
         used = {p for g in d["funcs"] for p in g["params"]}
         d["inputs"] = [kv for kv in d["inputs"] if kv[0] in used]
         if d["funcs"]:
